@@ -51,6 +51,11 @@ EMACS = {"ins1": b"a", "ins2": b"b", "ins3": b" ", "del": b"\x7f", "rub": b"\x17
          "twd": b"\x1bt", "upc": b"\x1bu", "killw": b"\x1bd", "revert": b"\x1br", "tab": b"\t",
          # with numeric arguments: the intermediate buffers of a repeated command are never displayed
          "del2": b"\x1b2\x7f", "ins3": b"\x1b3a", "killw2": b"\x1b2\x1bd", "rub2": b"\x1b2\x17", "dch2": b"\x1b2\x04", "upc2": b"\x1b2\x1bu", "twd2": b"\x1b2\x1bt"}
+# (a command that has no use for its numeric argument leaves the digits for the next argument: a dozen of these followed by a
+#  yank repeats it tens of thousands of times - slow, not a spin, but beyond the watchdog's patience: the harness's no-argument
+#  key follows every counted command)
+for _k in ("del2", "ins3", "killw2", "rub2", "dch2", "upc2", "twd2"):
+    EMACS[_k] += b"\x1e~~"
 # vi-command alphabet (typing happens through i ... ESC groups)
 VI = {"ityp": [b"i", b"a", b"b", b"\x1b"], "atyp": [b"A", b" ", b"c", b"\x1b"], "x": [b"x"], "dw": [b"d", b"w"], "db": [b"d", b"b"], "D": [b"D"],
       "p": [b"p"], "P": [b"P"], "h": [b"h"], "l": [b"l"], "0": [b"0"], "undo": [b"u"], "redo": [b"\x1eua"], "viredo": [b"\x1eub"],
